@@ -72,10 +72,22 @@ theorem buffer_size_zero_holds_one :
     ((notify .TICK_5 [] { pools := [{ name := "a", bufSize := 0, subs := [.TICK] }] }).pools.map (·.buffer)) = [[0]] := by
   decide
 
-/-- **reject_isolated**: an `EventRejectedEvent` coming from a listener of pool `pi` leaves every other
-    pool exactly as it was (buffer, poolserial counter, listeners) -/
-theorem reject_isolated (pi e : Nat) (w : W) (j : Nat) (hj : j ≠ pi) :
-    (rejected pi e w).pools[j]? = w.pools[j]? := rejected_other pi e w j hj
+/-- **reject_isolated**: an `EventRejectedEvent` coming from the process object `who` leaves every pool that does
+    not own that object exactly as it was (buffer, poolserial counter, listeners) — whatever the listeners' *names*
+    are: the owner test `owns` looks at object identities only (`handle_rejected`: `any(process is p for p in procs)`),
+    so two pools whose listeners have the same names and priorities do not disturb each other. -/
+theorem reject_isolated (who : Option Nat) (e : Nat) (w : W) (j : Nat)
+    (hj : ∀ p, w.pools[j]? = some p → owns p who = false) :
+    (rejected who e w).pools[j]? = w.pools[j]? := rejected_other who e w j hj
+
+/-- two pools whose only listeners have the same name `l0` (and distinct object identities 0 and 1): the hypothesis
+    of `reject_isolated` holds for pool 1 when listener 0 rejects -/
+example :
+    let w : W := { pools := [{ name := "a", bufSize := 3, subs := [.TICK_5], ids := [0], names := ["l0"] },
+                             { name := "b", bufSize := 3, subs := [.TICK_60], ids := [1], names := ["l0"] }] }
+    ∀ p, w.pools[1]? = some p → owns p (whoOf w 0 0) = false := by
+  intro w p hp
+  simp [w] at hp; subst hp; decide
 
 /-- **offered_once** (universal): `notify` calls a pool's `_acceptEvent` once per matching subscription, but
     the state it leaves is exactly the one obtained by offering the event to each matching pool **once**
@@ -117,12 +129,13 @@ theorem overflow_drops_oldest_only (i e : Nat) (head : Bool) (w : W) (p : PoolSt
 /-- **reject_returns_to_head** (universal): an `EventRejectedEvent` from a listener of pool `pi` for an event that
     pool had accepted puts the event at the head of pool `pi`'s buffer (dropping, with a log entry, the oldest
     buffered event if the buffer is full) -/
-theorem reject_returns_to_head (pi e : Nat) (w : W) (h : Acc w pi e) :
-    ∃ p p', w.pools[pi]? = some p ∧ (rejected pi e w).pools[pi]? = some p' ∧
+theorem reject_returns_to_head (who : Option Nat) (pi e : Nat) (w : W) (h : Acc w pi e)
+    (hown : ∀ p, w.pools[pi]? = some p → owns p who = true)
+    (hothers : ∀ i, i ≠ pi → ∀ q, w.pools[i]? = some q → owns q who = false) :
+    ∃ p p', w.pools[pi]? = some p ∧ (rejected who e w).pools[pi]? = some p' ∧
       p'.buffer = e :: (if overflowed p then p.buffer.drop 1 else p.buffer) := by
   obtain ⟨p, ev, hp, hev, hl, hs⟩ := h
-  have hpi : pi < w.pools.length := (List.getElem?_eq_some_iff.mp hp).1
-  rw [rejected_eq pi e w hpi, rebuffer_eq_insertEv pi e w ⟨p, ev, hp, hev, hl, hs⟩]
+  rw [rejected_eq who pi e w p hp (hown p hp) hothers, rebuffer_eq_insertEv pi e w ⟨p, ev, hp, hev, hl, hs⟩]
   obtain ⟨h1, _⟩ := insertEv_spec pi e true w p hp
   exact ⟨p, _, hp, h1, by rw [(insBuf_fields e true p).2.2.2.2.2]; simp⟩
 
@@ -174,12 +187,14 @@ theorem offered_once_instance :
     (notified (callbacks [tickPool]) .TICK_5) = [0, 0] ∧
     ((notify .TICK_5 [] { pools := [tickPool] }).pools.map (·.buffer)) = [[0]] := by decide
 
-/-- F1 (fixed): a rejection by a listener of pool 0 re-buffers the event in pool 0 only -/
+/-- F1 (fixed): a rejection by a listener of pool 0 re-buffers the event in pool 0 only, although pool 1 has a
+    listener of the same name -/
 theorem reject_isolated_instance :
-    let w0 : W := { pools := [{ tickPool with subs := [.TICK_5] }, { tickPool with name := "b", subs := [.TICK_60] }] }
+    let w0 : W := { pools := [{ tickPool with subs := [.TICK_5], ids := [0], names := ["l0"] },
+                              { tickPool with name := "b", subs := [.TICK_60], ids := [1], names := ["l0"] }] }
     let w1 := notify .TICK_5 [] w0
     let w2 := setPool w1 0 (fun p => { p with buffer := [] })      -- the event is out with a listener
-    ((rejected 0 0 w2).pools.map (·.buffer)) = [[0], []] := by decide
+    ((rejected (whoOf w2 0 0) 0 w2).pools.map (·.buffer)) = [[0], []] := by decide
 
 /-- overflow: a full buffer (size 1) drops its oldest event, with a log entry, and keeps the new one -/
 theorem overflow_drops_oldest_instance :
